@@ -190,6 +190,17 @@ EndStep(e) ==
      /\ IF bad # {} /\ mine = {} THEN TLCSet(46, TLCGet(46) + 1) ELSE TRUE
      /\ UNCHANGED <<hd, tb, tx, ab, lk, ok>>
 
+FaultClasses == {"hash", "eq", "clone", "drop", "bh_clone"}
+IdsOfY(e) == Ids(UNION {{y[2], y[4]} : y \in {z \in SeqToSet(e.y) : Len(z) >= 4 /\ z[1] # -7 /\ z[1] # -9}})
+KI(S) == {<<x[1], x[2]>> : x \in S}
+RECURSIVE SeqMinus(_, _)
+SeqMinus(s, r) ==   \* bag difference of sequences
+  IF r = <<>> THEN s
+  ELSE LET i == CHOOSE i \in 1..Len(s) : s[i] = Head(r)
+       IN SeqMinus(SubSeq(s, 1, i - 1) \o SubSeq(s, i + 1, Len(s)), Tail(r))
+IsSubBag(r, s) == \A x \in SeqToSet(r) : Count(r, x) <= Count(s, x)
+
+
 InsertLike == {"insert", "try_insert", "e_or_insert", "e_or_insert_with", "e_or_insert_with_key", "e_and_modify_or_insert",
                "e_insert", "e_insert_entry", "er_or_insert", "er_insert", "er_and_modify_or_insert", "er_insert_entry",
                "rc_or_insert", "rc_insert", "rc_insert_entry", "re_from_key_or_insert", "re_hashed_or_insert",
@@ -306,7 +317,9 @@ OpStep(e) ==
       chkAbs == \A i \in 1..hd.nt : lvAfter(i) => Elems(obsT[i]) = newAb[i]
       chkLive == \A i \in 1..hd.nt : obsX[i].lv = lvAfter(i)
       chkDrops == (hd.tr = 1 /\ e.op \notin {"serde_de", "serde_de_in_place"}) => (NoDupSeq(e.dr) /\ SeqToSet(e.dr) = absr.dr)
-      chkInv == \A i \in 1..hd.nt : lvAfter(i) => InvMap(obsT[i], FALSE)
+      \* every object the LIBRARY created during the call (clones, keys made by Into / Deserialize) is stored or was dropped
+      libCreated == Ids(SeqToSet(e.nw)) \ (Ids({e.id, e.vid}) \cup (IF e.op \in {"extend", "par_extend"} THEN IdsOfY(e) ELSE {}))
+      chkFresh == (hd.tr = 1) => libCreated \subseteq (UNION {AllIds(Elems(obsT[i])) : i \in {j \in 1..hd.nt : lvAfter(j)}}) \cup SeqToSet(e.dr)
       chkLen == \A i \in 1..hd.nt : lvAfter(i) =>
                   /\ obsX[i].len = Cardinality(newAb[i]) /\ obsX[i].cap >= obsX[i].len
       chkAlloc == /\ BagEq(e.bl, lk2.blocks \o LiveBlocks(obsT, obsX, hd, 1))
@@ -339,7 +352,8 @@ OpStep(e) ==
           [] OTHER -> TRUE
       chkPanic == e.pn \in {"", "index", "dup", "noteq"}
       opp == OpProp(e.op, hd.kind)
-      invd == UNION {InvDiag(obsT[i], FALSE, hd.kind # "table") : i \in {j \in 1..hd.nt : lvAfter(j)}}
+      \* (a table whose observed state did not change was checked when it last changed)
+      invd == UNION {InvDiag(obsT[i], FALSE, hd.kind # "table") : i \in {j \in 1..hd.nt : lvAfter(j) /\ obsT[j] # tb[j]}}
       invStruct == invd \cap {"I1 shape", "I2 mirror bytes", "I3 items = number of FULL bytes", "I4 an EMPTY bucket exists",
                               "I5 growth_left accounting", "I9 FULL <=> slot holds an element"}
       invFind == invd \ invStruct
@@ -350,6 +364,7 @@ OpStep(e) ==
              \cup (IF ~chkRet THEN {<<"result differs from the abstract specification", opp>>} ELSE {})
              \cup (IF ~chkAbs THEN {<<"contents differ from the abstract specification", opp>>} ELSE {})
              \cup (IF ~chkDrops THEN {<<"dropped elements differ from the abstract specification", {"C03", "C04"}>>} ELSE {})
+             \cup (IF ~chkFresh THEN {<<"an object created during the call is neither stored nor dropped (leak)", {"C03", "C04"} \cup opp>>} ELSE {})
              \cup (IF ~chkLen THEN {<<"len()/capacity() contract", {"C08"} \cup opp>>} ELSE {})
              \cup (IF ~chkAlloc THEN {<<"allocator ledger / allocation_size", {"C03", "C08", "C13"} \cup (IF e.op = "drain" THEN {"C10"} ELSE {})>>} ELSE {})
              \cup (IF ~chkNoAlloc THEN {<<"allocation although len < capacity", {"C08"}>>} ELSE {})
@@ -401,16 +416,6 @@ OpStep(e) ==
 (* only when the panic came out of a destructor - and a hasher panic while  *)
 (* the table is being grown into a new allocation leaves it unchanged.      *)
 (***************************************************************************)
-FaultClasses == {"hash", "eq", "clone", "drop", "bh_clone"}
-IdsOfY(e) == Ids(UNION {{y[2], y[4]} : y \in {z \in SeqToSet(e.y) : Len(z) >= 4 /\ z[1] # -7 /\ z[1] # -9}})
-KI(S) == {<<x[1], x[2]>> : x \in S}
-RECURSIVE SeqMinus(_, _)
-SeqMinus(s, r) ==   \* bag difference of sequences
-  IF r = <<>> THEN s
-  ELSE LET i == CHOOSE i \in 1..Len(s) : s[i] = Head(r)
-       IN SeqMinus(SubSeq(s, 1, i - 1) \o SubSeq(s, i + 1, Len(s)), Tail(r))
-IsSubBag(r, s) == \A x \in SeqToSet(r) : Count(r, x) <= Count(s, x)
-
 FaultStep(e) ==
   LET t == e.t
       u == e.u
@@ -421,12 +426,12 @@ FaultStep(e) ==
       live == {i \in 1..hd.nt : obsX[i].lv}
       ph == PlanFn(hd, tx[t].pl)
       allBefore == UNION {AllIds(ab[i]) : i \in 1..hd.nt} \cup Ids({e.id, e.vid})
-                   \cup (IF e.op = "extend" THEN IdsOfY(e) ELSE {})
+                   \cup (IF e.op = "extend" THEN IdsOfY(e) ELSE {}) \cup Ids(SeqToSet(e.nw))
       present == UNION {AllIds(Elems(obsT[i])) : i \in live}
       dropped == SeqToSet(e.dr)
       movedOut == IF e.op \in {"drain", "extract_if", "into_iter", "t_extract_if"} THEN IdsOfY(e) ELSE {}
       unacc == allBefore \ (present \cup dropped \cup movedOut)        \* neither present nor dropped nor moved out = leaked
-      invd == UNION {InvDiag(obsT[i], FALSE, hd.kind # "table") : i \in live}
+      invd == UNION {InvDiag(obsT[i], FALSE, hd.kind # "table") : i \in {j \in live : obsT[j] # tb[j]}}
       expectedLive == lk.blocks \o LiveBlocks(obsT, obsX, hd, 1)
       extra == IF IsSubBag(expectedLive, e.bl) THEN SeqMinus(e.bl, expectedLive) ELSE <<>>
       grew == \E i \in 1..Len(e.al) : e.al[i][1] = 1
@@ -438,7 +443,8 @@ FaultStep(e) ==
         \cup (IF hd.tr = 1 /\ (~NoDupSeq(e.dr) \/ dropped \cap present # {})
              THEN {<<"after a callback panic: an element was dropped twice or dropped while still stored", {"C04", "C03", "C02"}>>} ELSE {})
         \cup (IF hd.tr = 1 /\ unacc # {} /\ e.pn # "drop"
-             THEN {<<"after a callback panic: an element is neither stored nor dropped (leak without a destructor panic)", {"C04", "C03"}>>} ELSE {})
+             THEN {<<"after a callback panic: an element is neither stored nor dropped (leak without a destructor panic)",
+                     {"C04", "C03"} \cup (IF e.op \in {"clone", "clone_from"} THEN {"C11"} ELSE {})>>} ELSE {})
         \cup (IF \E i \in live \ touched : i <= Len(ab) /\ tx[i].lv /\ Elems(obsT[i]) # ab[i]
              THEN {<<"after a callback panic: a collection not involved in the call changed", {"C04", "C11"}>>} ELSE {})
         \cup (IF t \in live /\ e.op \notin {"clone_from", "xor_assign", "or_assign", "new", "with_capacity"}
@@ -486,16 +492,17 @@ ChaosStep(e) ==
       obsX == [i \in 1..hd.nt |-> ObsX(e.s[i])]
       live == {i \in 1..hd.nt : obsX[i].lv}
       before == UNION {AllIds(ab[i]) : i \in 1..hd.nt} \cup Ids({e.id, e.vid})
-                \cup (IF e.op = "extend" THEN IdsOfY(e) ELSE {})
+                \cup (IF e.op = "extend" THEN IdsOfY(e) ELSE {}) \cup Ids(SeqToSet(e.nw))
       present == UNION {AllIds(Elems(obsT[i])) : i \in live}
       dropped == SeqToSet(e.dr)
-      movedOut == IF e.op \in {"drain", "extract_if", "into_iter", "t_extract_if", "remove", "remove_entry", "insert", "e_remove",
-                               "e_remove_entry", "rc_remove", "re_remove", "e_occ_insert", "e_into_key", "try_insert", "take", "replace"}
+      movedOut == IF e.op \in {"drain", "extract_if", "into_iter", "t_extract_if"} THEN IdsOfY(e)     \* yielded to the caller
+                  ELSE IF e.op \in {"remove", "remove_entry", "insert", "e_remove", "e_remove_entry", "rc_remove", "re_remove",
+                                    "e_occ_insert", "e_into_key", "try_insert", "take", "replace"}
                   THEN before \ (present \cup dropped) ELSE {}      \* returned to the caller (dropped by the harness after the call)
       forgot == e.op = "drain" /\ e.n = 1
       unacc == before \ (present \cup dropped \cup movedOut)
       fresh == present \ before                                     \* clones
-      sd == UNION {SafeDiag(obsT[i]) : i \in live}
+      sd == UNION {SafeDiag(obsT[i]) : i \in {j \in live : obsT[j] # tb[j]}}
       expectedLive == lk.blocks \o LiveBlocks(obsT, obsX, hd, 1)
       extra == IF IsSubBag(expectedLive, e.bl) THEN SeqMinus(e.bl, expectedLive) ELSE <<>>
       bad ==
@@ -509,6 +516,10 @@ ChaosStep(e) ==
         \cup (IF ~IsSubBag(expectedLive, e.bl) \/ (extra # <<>> /\ ~forgot)
              THEN {<<"unlawful Hash/Eq: allocator ledger does not match the live tables", {"C05", "C02"}>>} ELSE {})
         \cup (IF e.pn \notin {"", "index", "dup", "noteq"} THEN {<<"unlawful Hash/Eq: unexpected panic " \o e.pn, {"C05", "C02"}>>} ELSE {})
+        \* get_many_mut must never hand out two references to one entry, whatever Hash and Eq answer
+        \cup (IF e.op \in {"get_many_mut", "get_many_kv_mut"} /\ e.pn = "" /\ Len(e.r) = 2 * Len(e.ks)
+                /\ (\E i, j \in 1..Len(e.ks) : i # j /\ e.r[i] = 1 /\ e.r[j] = 1 /\ e.r[Len(e.ks) + i] = e.r[Len(e.ks) + j])
+             THEN {<<"unlawful Hash/Eq: get_many_mut returned two mutable references to the same entry", {"C05", "C15", "C02"}>>} ELSE {})
       mine == {b \in bad : PROP = "ALL" \/ PROP \in b[2]}
       hs == [i \in 1..Len(e.hl) |-> [pos |-> e.hl[i][1], tag |-> e.hl[i][2]]]
       strictKnown == hd.kind = "map" /\ e.el = <<>> /\ e.pn = "" /\ Len(e.hl) >= 1
